@@ -564,5 +564,6 @@ EXPLANATION = (
     "reject in both constructors. R6: writer/reader/listing name formats agree (regular-language inclusion). R7: the two places "
     "that cut a block at a file boundary (inside and after the block loop of digital_rf_create_rf_data_index) use the same linear "
     "form (contradiction rule). Does NOT decide that the floor/ceil arithmetic is right.")
+TECHNIQUE = ('clang JSON AST; typed backward slice (integer-only); purity/effects of naming functions and their helpers; def-use pairing of floor/ceil helpers; CFG must-pass; linear-form sibling comparison')
 ASSUMPTIONS = ["clang's expression types are the types the compiler uses", "gmtime is a pure function of its argument"]
 FILES = [C_LIB, "python/digital_rf/digital_rf_hdf5.py", "python/digital_rf/list_drf.py"]
